@@ -26,23 +26,23 @@ fn c14_pay_gas() {
 
     match r {
         Ok(()) => {
-            assert!(shim::authed(&spender), "OBL C07.pay_gas_needs_spender: gas is paid from `spender` only under the spender's own authorisation (the sender's or anyone else's is not enough)");
-            assert!(token.amount > 0, "OBL C14.payment_needs_positive_amount");
-            assert!(
+            soroban_sdk::obl!(shim::authed(&spender), "OBL C07.pay_gas_needs_spender: gas is paid from `spender` only under the spender's own authorisation (the sender's or anyone else's is not enough)");
+            soroban_sdk::obl!(token.amount > 0, "OBL C14.payment_needs_positive_amount");
+            soroban_sdk::obl!(
                 shim::n_calls() == 1 && shim::call_is(0, &token.address, "transfer", &(spender.clone(), me.clone(), token.amount)),
                 "OBL C14.payment_moves_exact_amount: exactly one token transfer, of exactly the amount, from the spender to the service, on the named token"
             );
-            assert!(
+            soroban_sdk::obl!(
                 shim::n_events() == 1
                     && shim::event_is(0, &(Symbol::new(&env, "gas_paid"), sender.clone(), chain.clone(), dest.clone(), env.crypto().keccak256(&payload), spender.clone(), token.clone()), &(metadata.clone(),)),
                 "OBL C14.payment_event: one gas_paid event with the same token and amount"
             );
-            assert!(no_storage_change(), "OBL C14.payment_frame");
+            soroban_sdk::obl!(no_storage_change(), "OBL C14.payment_frame");
             kani::cover!(true, "COVER pay_gas ok");
         }
         Err(e) => {
-            assert!(token.amount <= 0 && e == ContractError::InvalidAmount, "OBL C14.payment_err_only_nonpositive");
-            assert!(shim::no_effects(), "OBL C14.rejected_payment_moves_nothing");
+            soroban_sdk::obl!(token.amount <= 0 && e == ContractError::InvalidAmount, "OBL C14.payment_err_only_nonpositive");
+            soroban_sdk::obl!(shim::no_effects(), "OBL C14.rejected_payment_moves_nothing");
             kani::cover!(true, "COVER pay_gas err");
         }
     }
@@ -61,16 +61,16 @@ fn c14_add_gas() {
 
     match r {
         Ok(()) => {
-            assert!(shim::authed(&spender), "OBL C07.add_gas_needs_spender");
-            assert!(token.amount > 0, "OBL C14.topup_needs_positive_amount");
-            assert!(shim::n_calls() == 1 && shim::call_is(0, &token.address, "transfer", &(spender.clone(), me.clone(), token.amount)), "OBL C14.topup_moves_exact_amount");
-            assert!(shim::n_events() == 1 && shim::event_is(0, &(Symbol::new(&env, "gas_added"), sender.clone(), mid.clone(), spender.clone(), token.clone()), &()), "OBL C14.topup_event");
-            assert!(no_storage_change(), "OBL C14.topup_frame");
+            soroban_sdk::obl!(shim::authed(&spender), "OBL C07.add_gas_needs_spender");
+            soroban_sdk::obl!(token.amount > 0, "OBL C14.topup_needs_positive_amount");
+            soroban_sdk::obl!(shim::n_calls() == 1 && shim::call_is(0, &token.address, "transfer", &(spender.clone(), me.clone(), token.amount)), "OBL C14.topup_moves_exact_amount");
+            soroban_sdk::obl!(shim::n_events() == 1 && shim::event_is(0, &(Symbol::new(&env, "gas_added"), sender.clone(), mid.clone(), spender.clone(), token.clone()), &()), "OBL C14.topup_event");
+            soroban_sdk::obl!(no_storage_change(), "OBL C14.topup_frame");
             kani::cover!(true, "COVER add_gas ok");
         }
         Err(e) => {
-            assert!(token.amount <= 0 && e == ContractError::InvalidAmount, "OBL C14.topup_err_only_nonpositive");
-            assert!(shim::no_effects(), "OBL C14.rejected_topup_moves_nothing");
+            soroban_sdk::obl!(token.amount <= 0 && e == ContractError::InvalidAmount, "OBL C14.topup_err_only_nonpositive");
+            soroban_sdk::obl!(shim::no_effects(), "OBL C14.rejected_topup_moves_nothing");
             kani::cover!(true, "COVER add_gas err");
         }
     }
@@ -90,24 +90,24 @@ fn c14_collect_fees() {
     let c = collector.clone().unwrap_or(Address(0));
     match r {
         Ok(()) => {
-            assert!(matches!(&collector, Some(c) if shim::authed(c)), "OBL C06.collect_fees_needs_collector: funds leave only under the authorisation of the gas collector stored at entry");
-            assert!(token.amount > 0, "OBL C14.collect_needs_positive_amount");
-            assert!(
+            soroban_sdk::obl!(matches!(&collector, Some(c) if shim::authed(c)), "OBL C06.collect_fees_needs_collector: funds leave only under the authorisation of the gas collector stored at entry");
+            soroban_sdk::obl!(token.amount > 0, "OBL C14.collect_needs_positive_amount");
+            soroban_sdk::obl!(
                 shim::n_calls() == 2 && shim::call_is(0, &token.address, "balance", &(me.clone(),)) && shim::call_ret::<i128>(0) >= token.amount,
                 "OBL C14.collect_never_more_than_held: the service's own balance, as reported by the token, covers the amount"
             );
-            assert!(shim::call_is(1, &token.address, "transfer", &(me.clone(), receiver.clone(), token.amount)), "OBL C14.collect_moves_exact_amount");
-            assert!(shim::n_events() == 1 && shim::event_is(0, &(Symbol::new(&env, "gas_collected"), c.clone(), token.clone()), &()), "OBL C14.collect_event");
-            assert!(no_storage_change(), "OBL C14.collect_frame");
+            soroban_sdk::obl!(shim::call_is(1, &token.address, "transfer", &(me.clone(), receiver.clone(), token.amount)), "OBL C14.collect_moves_exact_amount");
+            soroban_sdk::obl!(shim::n_events() == 1 && shim::event_is(0, &(Symbol::new(&env, "gas_collected"), c.clone(), token.clone()), &()), "OBL C14.collect_event");
+            soroban_sdk::obl!(no_storage_change(), "OBL C14.collect_frame");
             kani::cover!(true, "COVER collect ok");
         }
         Err(e) => {
-            assert!(
+            soroban_sdk::obl!(
                 (token.amount <= 0 && e == ContractError::InvalidAmount && shim::n_calls() == 0)
                     || (token.amount > 0 && e == ContractError::InsufficientBalance && shim::n_calls() == 1 && shim::call_is(0, &token.address, "balance", &(me.clone(),)) && shim::call_ret::<i128>(0) < token.amount),
                 "OBL C14.collect_err_cases: refused only for a non-positive amount or an amount above the balance, and then no transfer is attempted"
             );
-            assert!(no_storage_change() && shim::n_events() == 0, "OBL C14.rejected_collect_moves_nothing");
+            soroban_sdk::obl!(no_storage_change() && shim::n_events() == 0, "OBL C14.rejected_collect_moves_nothing");
             kani::cover!(e == ContractError::InsufficientBalance, "COVER collect err balance");
             kani::cover!(e == ContractError::InvalidAmount, "COVER collect err amount");
         }
@@ -126,11 +126,11 @@ fn c14_refund() {
     G::refund(env.clone(), mid.clone(), receiver.clone(), token.clone());
 
     let collector: Option<Address> = inst().pre(&DataKey::GasCollector);
-    assert!(matches!(&collector, Some(c) if shim::authed(c)), "OBL C06.refund_needs_collector: refunds are issued only under the authorisation of the gas collector stored at entry");
+    soroban_sdk::obl!(matches!(&collector, Some(c) if shim::authed(c)), "OBL C06.refund_needs_collector: refunds are issued only under the authorisation of the gas collector stored at entry");
     let c = collector.unwrap_or(Address(0));
-    assert!(shim::n_calls() == 1 && shim::call_is(0, &token.address, "transfer", &(me.clone(), receiver.clone(), token.amount)), "OBL C14.refund_moves_exact_amount: exactly one transfer of exactly the amount from the service to the receiver (the token refuses more than is held: C12)");
-    assert!(shim::n_events() == 1 && shim::event_is(0, &(Symbol::new(&env, "gas_refunded"), mid.clone(), receiver.clone(), token.clone()), &()), "OBL C14.refund_event");
-    assert!(no_storage_change(), "OBL C14.refund_frame");
+    soroban_sdk::obl!(shim::n_calls() == 1 && shim::call_is(0, &token.address, "transfer", &(me.clone(), receiver.clone(), token.amount)), "OBL C14.refund_moves_exact_amount: exactly one transfer of exactly the amount from the service to the receiver (the token refuses more than is held: C12)");
+    soroban_sdk::obl!(shim::n_events() == 1 && shim::event_is(0, &(Symbol::new(&env, "gas_refunded"), mid.clone(), receiver.clone(), token.clone()), &()), "OBL C14.refund_event");
+    soroban_sdk::obl!(no_storage_change(), "OBL C14.refund_frame");
     kani::cover!(true, "COVER refund returned");
 }
 
@@ -140,9 +140,9 @@ fn c14_constructor_and_view() {
     let _h = shim::fresh_host();
     let (owner, collector) = (Address::symbolic(), Address::symbolic());
     G::__constructor(env.clone(), owner.clone(), collector.clone());
-    assert!(inst().post::<_, Address>(&OWNER_KEY) == Some(owner.clone()) && inst().post::<_, Address>(&DataKey::GasCollector) == Some(collector.clone()), "OBL C06.gas_ctor_sets_roles");
-    assert!(G::gas_collector(&env) == collector, "OBL C06.gas_collector_view");
-    assert!(shim::n_calls() == 0 && shim::n_events() == 0 && pers().n_changed() == 0, "OBL C14.ctor_moves_nothing");
+    soroban_sdk::obl!(inst().post::<_, Address>(&OWNER_KEY) == Some(owner.clone()) && inst().post::<_, Address>(&DataKey::GasCollector) == Some(collector.clone()), "OBL C06.gas_ctor_sets_roles");
+    soroban_sdk::obl!(G::gas_collector(&env) == collector, "OBL C06.gas_collector_view");
+    soroban_sdk::obl!(shim::n_calls() == 0 && shim::n_events() == 0 && pers().n_changed() == 0, "OBL C14.ctor_moves_nothing");
     kani::cover!(true, "COVER gas ctor");
 }
 
